@@ -64,6 +64,7 @@ package limiter
 //@   ensures[C02,C09] listener_fields: ret1 ==> dyntype(ret0, "*limiter.DefaultListener") && fresh(ref(ret0)) && dl(ret0).token == callres("core.Strategy.TryAcquire", 0, 0) && dl(ret0).inFlight == l.inFlight && dl(ret0).limiter == l && dl(ret0).currentMaxInFlight == *l.inFlight && dl(ret0).minRTTThreshold == l.minRTTThreshold && dl(ret0).nextUpdateTime == l.nextUpdateTime && dl(ret0).startTime == callres("time.Now", 0, 0)
 //@   ensures[C09] window_untouched: l.sample == old(l.sample) && l.nextUpdateTime == old(l.nextUpdateTime)
 //@   owns[C01,C17]
+//@   assigns *l.inFlight, l.strategy.busy
 
 //@ define dl(x core.Listener) *limiter.DefaultListener = as(x, "*limiter.DefaultListener")
 
@@ -181,6 +182,7 @@ package limiter
 //@   ensures[C02] listener_iff_ok: ret1 <==> ret0 != nil
 //@   ensures[C02] follows_tryAcquire: ncalls("(*limiter.BlockingLimiter).tryAcquire") == 1 && (ret1 <==> callres("(*limiter.BlockingLimiter).tryAcquire", 0, 1))
 //@   ensures[C02,C10] wraps_delegate_listener: ret1 ==> dyntype(ret0, "*limiter.DelegateListener") && as(ret0, "*limiter.DelegateListener").delegateListener == callres("(*limiter.BlockingLimiter).tryAcquire", 0, 0) && as(ret0, "*limiter.DelegateListener").c == l.c
+//@   assigns nothing
 
 //@ func (*DeadlineLimiter).tryAcquire
 //@   maintains l
@@ -200,6 +202,7 @@ package limiter
 //@   ensures[C02] listener_iff_ok: ok <==> listener != nil
 //@   ensures[C02] follows_tryAcquire: ncalls("(*limiter.DeadlineLimiter).tryAcquire") == 1 && (ok <==> callres("(*limiter.DeadlineLimiter).tryAcquire", 0, 1))
 //@   ensures[C02,C10] wraps_delegate_listener: ok ==> dyntype(listener, "*limiter.DelegateListener") && as(listener, "*limiter.DelegateListener").delegateListener == callres("(*limiter.DeadlineLimiter).tryAcquire", 0, 0) && as(listener, "*limiter.DelegateListener").c == l.c
+//@   assigns nothing
 
 //@ func (*DelegateListener).OnSuccess
 //@   requires objs: l.delegateListener != nil && l.c != nil
@@ -324,6 +327,7 @@ package limiter
 //@   ensures[C02] listener_iff_ok: ret1 <==> ret0 != nil
 //@   ensures[C02] follows_tryAcquire: ncalls("(*limiter.QueueBlockingLimiter).tryAcquire") == 1 && (ret1 <==> callres("(*limiter.QueueBlockingLimiter).tryAcquire", 0, 0) != nil)
 //@   ensures[C02,C10] wraps_delegate_listener: ret1 ==> dyntype(ret0, "*limiter.QueueBlockingListener") && as(ret0, "*limiter.QueueBlockingListener").delegateListener == callres("(*limiter.QueueBlockingLimiter).tryAcquire", 0, 0) && as(ret0, "*limiter.QueueBlockingListener").limiter == l
+//@   assigns listof(l.backlog.list)
 
 // ---------------------------------------------------------------------------------------------
 // Construction and wiring of queue limiters (C11, C12, C13, C20)
